@@ -13,8 +13,11 @@ import GdVerif.Props.C04_gs3
   missing, `Attempt.got` / `Faults.partOf` — still arrive before the silence) — and how the unit ends: the valid exchange
   (data packets in ANY order of arrival), nothing, or a malformed datagram at either stage (at the data stage possibly
   after some of the data packets).  `faultyScript` / `faultyFaults` are the two arguments of `Net.init`; what follows them (`restQ`, `restF`) is
-  arbitrary.  Quantified: state and wire layout in the SPEC's domain (any challenge, 1–128 packets, any arrival order),
-  port, retry count, the plan.
+  arbitrary.  Quantified: state and wire layout in the SPEC's domain — the domain of the DECODING theorems
+  (`C04_gs3_query_extra`): `ConfigX` / `wfX`, i.e. any challenge, 1–128 packets, any arrival order, and any allowed extra
+  field sections (`kills_`, `time_on_`, `honor_t` …) at any positions of any packet —, port, retry count, the plan.
+  Replies without extra sections (`Config` / `wf`, the earlier statement) are the case `cfg.toX`:
+  `C10_gs3_faults_conservative`, `C10_gs3_query_faulty_no_extra`.
 -/
 open Gd Gd.Gs3 Gd.Gs3.Spec Gd.Faults
 
@@ -26,66 +29,66 @@ packets): the query returns the outcome the property prescribes
 (`faultyExpected`: the fault-free response / the last failure's error / the malformed datagram's error), and the
 datagrams it sent are exactly the plan's (`faultySends`: every attempt starts with the handshake request; a failed
 attempt at the data stage also sends the data request). -/
-theorem C10_gs3_query_faulty (cfg : Config) (st : State) (h : wf cfg st = true) (port retries : Nat)
-    (arrival : List Bytes) (harr : arrival.Perm (dataPackets cfg st)) (plan : Plan)
-    (hplan : wfPlan retries (dataPackets cfg st) plan = true) (restQ : List Delivery) (restF : List Bool) :
+theorem C10_gs3_query_faulty (cfg : ConfigX) (st : State) (h : wfX cfg st = true) (port retries : Nat)
+    (arrival : List Bytes) (harr : arrival.Perm (dataPacketsX cfg st)) (plan : Plan)
+    (hplan : wfPlan retries (dataPacketsX cfg st) plan = true) (restQ : List Delivery) (restF : List Bool) :
     (Gs3.query port retries
-        (Net.init [.opened (faultyScript cfg plan arrival ++ restQ)] (faultyFaults plan ++ restF))).1
+        (Net.init [.opened (faultyScriptX cfg plan arrival ++ restQ)] (faultyFaults plan ++ restF))).1
       = faultyExpected st plan
     ∧ Gd.sentOf (Gs3.query port retries
-        (Net.init [.opened (faultyScript cfg plan arrival ++ restQ)] (faultyFaults plan ++ restF))).2.log
-      = faultySends cfg plan := by
-  rw [query_eq, ← faultyExpected_eq cfg st h plan]
-  exact exchange_faulty cfg st h port retries buildResponse arrival harr plan hplan restQ restF
+        (Net.init [.opened (faultyScriptX cfg plan arrival ++ restQ)] (faultyFaults plan ++ restF))).2.log
+      = faultySendsX cfg plan := by
+  rw [query_eq, ← faultyExpected_eqX cfg st h plan]
+  exact exchange_faultyX cfg st h port retries buildResponse arrival harr plan hplan restQ restF
 
 /-- the same for `query_vars`: the variables sent, under the same faults -/
-theorem C10_gs3_query_vars_faulty (cfg : Config) (st : State) (h : wf cfg st = true) (port retries : Nat)
-    (arrival : List Bytes) (harr : arrival.Perm (dataPackets cfg st)) (plan : Plan)
-    (hplan : wfPlan retries (dataPackets cfg st) plan = true) (restQ : List Delivery) (restF : List Bool) :
+theorem C10_gs3_query_vars_faulty (cfg : ConfigX) (st : State) (h : wfX cfg st = true) (port retries : Nat)
+    (arrival : List Bytes) (harr : arrival.Perm (dataPacketsX cfg st)) (plan : Plan)
+    (hplan : wfPlan retries (dataPacketsX cfg st) plan = true) (restQ : List Delivery) (restF : List Bool) :
     (Gs3.queryVars port retries
-        (Net.init [.opened (faultyScript cfg plan arrival ++ restQ)] (faultyFaults plan ++ restF))).1
-      = (faultyPackets cfg st plan >>= buildVars)
+        (Net.init [.opened (faultyScriptX cfg plan arrival ++ restQ)] (faultyFaults plan ++ restF))).1
+      = (faultyPacketsX cfg st plan >>= buildVars)
     ∧ Gd.sentOf (Gs3.queryVars port retries
-        (Net.init [.opened (faultyScript cfg plan arrival ++ restQ)] (faultyFaults plan ++ restF))).2.log
-      = faultySends cfg plan := by
+        (Net.init [.opened (faultyScriptX cfg plan arrival ++ restQ)] (faultyFaults plan ++ restF))).2.log
+      = faultySendsX cfg plan := by
   rw [queryVars_eq]
-  exact exchange_faulty cfg st h port retries buildVars arrival harr plan hplan restQ restF
+  exact exchange_faultyX cfg st h port retries buildVars arrival harr plan hplan restQ restF
 
 /-- (a) RECOVERY.  `fails` (any number ≤ `retries`; each at the handshake or at the data stage, a silence or a failed
 send, the silence at the data stage possibly after some — not all — of the data packets: `Attempt.wf`) precede the valid
-exchange; nothing an abandoned attempt received shows in the result: the query returns exactly `Spec.expected st` — by `C04_gs3_query` the result with no
+exchange; nothing an abandoned attempt received shows in the result: the query returns exactly `Spec.expected st` — by `C04_gs3_query_extra` the result with no
 faults —, and `fails.length + 1` attempts (handshake requests) were made. -/
-theorem C10_gs3_query_recovers (cfg : Config) (st : State) (h : wf cfg st = true) (port retries : Nat)
-    (arrival : List Bytes) (harr : arrival.Perm (dataPackets cfg st)) (fails : List Attempt)
-    (hk : fails.length ≤ retries) (hw : ∀ a ∈ fails, a.wf (dataPackets cfg st) = true) (restQ : List Delivery)
+theorem C10_gs3_query_recovers (cfg : ConfigX) (st : State) (h : wfX cfg st = true) (port retries : Nat)
+    (arrival : List Bytes) (harr : arrival.Perm (dataPacketsX cfg st)) (fails : List Attempt)
+    (hk : fails.length ≤ retries) (hw : ∀ a ∈ fails, a.wf (dataPacketsX cfg st) = true) (restQ : List Delivery)
     (restF : List Bool) :
     let plan : Plan := ⟨fails, .valid⟩
     let out := Gs3.query port retries
-        (Net.init [.opened (faultyScript cfg plan arrival ++ restQ)] (faultyFaults plan ++ restF))
+        (Net.init [.opened (faultyScriptX cfg plan arrival ++ restQ)] (faultyFaults plan ++ restF))
     out.1 = .ok (expected st)
-    ∧ Gd.sentOf out.2.log = fails.flatMap (Attempt.sends cfg) ++ [(handshakeRequest, false), (dataRequest cfg.challenge, false)]
+    ∧ Gd.sentOf out.2.log = fails.flatMap (Attempt.sendsX cfg) ++ [(handshakeRequest, false), (dataRequest cfg.challenge, false)]
     ∧ attemptsOf (Gd.sentOf out.2.log) = fails.length + 1 := by
   intro plan out
   obtain ⟨h1, h2⟩ := C10_gs3_query_faulty cfg st h port retries arrival harr plan
     (by simp only [plan, wfPlan, Bool.and_eq_true, List.all_eq_true, decide_eq_true_eq]; exact ⟨hw, hk⟩) restQ restF
   refine ⟨h1, h2, ?_⟩
   show attemptsOf (Gd.sentOf out.2.log) = _
-  rw [show Gd.sentOf out.2.log = _ from h2, attemptsOf_plan]
+  rw [show Gd.sentOf out.2.log = _ from h2, attemptsOf_planX]
   rfl
 
 /-- (b) EXHAUSTION.  All `retries + 1` attempts end in a timeout-class failure (at either stage): the query fails with
 the last attempt's error — `PacketReceive`, or `PacketSend` when that attempt ended on a failed send
 (`C10_gs3_last_error`) — after exactly `retries + 1` attempts, whatever the script still holds. -/
-theorem C10_gs3_query_exhausted (cfg : Config) (st : State) (h : wf cfg st = true) (port retries : Nat)
-    (arrival : List Bytes) (harr : arrival.Perm (dataPackets cfg st)) (fails : List Attempt)
-    (hk : fails.length = retries + 1) (hw : ∀ a ∈ fails, a.wf (dataPackets cfg st) = true) (restQ : List Delivery)
+theorem C10_gs3_query_exhausted (cfg : ConfigX) (st : State) (h : wfX cfg st = true) (port retries : Nat)
+    (arrival : List Bytes) (harr : arrival.Perm (dataPacketsX cfg st)) (fails : List Attempt)
+    (hk : fails.length = retries + 1) (hw : ∀ a ∈ fails, a.wf (dataPacketsX cfg st) = true) (restQ : List Delivery)
     (restF : List Bool) :
     let plan : Plan := ⟨fails, .gaveUp⟩
     let out := Gs3.query port retries
-        (Net.init [.opened (faultyScript cfg plan arrival ++ restQ)] (faultyFaults plan ++ restF))
+        (Net.init [.opened (faultyScriptX cfg plan arrival ++ restQ)] (faultyFaults plan ++ restF))
     out.1 = .err (lastError Attempt.error fails)
     ∧ (out.1 = .err .packetReceive ∨ out.1 = .err .packetSend)
-    ∧ Gd.sentOf out.2.log = fails.flatMap (Attempt.sends cfg)
+    ∧ Gd.sentOf out.2.log = fails.flatMap (Attempt.sendsX cfg)
     ∧ attemptsOf (Gd.sentOf out.2.log) = retries + 1 := by
   intro plan out
   obtain ⟨h1, h2⟩ := C10_gs3_query_faulty cfg st h port retries arrival harr plan
@@ -93,12 +96,12 @@ theorem C10_gs3_query_exhausted (cfg : Config) (st : State) (h : wf cfg st = tru
   have h1' : out.1 = .err (lastError Attempt.error fails) := h1
   refine ⟨h1', ?_, by
     rw [show Gd.sentOf out.2.log = _ from h2]
-    simp [plan, faultySends, sendsWith, Ending.sendsWith]
+    simp [plan, faultySendsX, sendsWith, Ending.sendsWith]
     rfl, ?_⟩
   · rw [h1']
     rcases lastError_class fails with e | e <;> rw [e] <;> simp
   · show attemptsOf (Gd.sentOf out.2.log) = _
-    rw [show Gd.sentOf out.2.log = _ from h2, attemptsOf_plan]
+    rw [show Gd.sentOf out.2.log = _ from h2, attemptsOf_planX]
     simp [plan, Plan.attempts, hk]
 
 theorem C10_gs3_last_error (fails : List Attempt) (a : Attempt) :
@@ -110,17 +113,17 @@ the handshake reply, or after a valid handshake as the first data packet or afte
 data packets — a datagram that does not start with the kind byte of that stage (`09` / `00`), or is empty: ANY such
 datagram.  Whatever `retries` is, the query fails at once with
 `PacketBad` / `PacketUnderflow` (not a timeout-class error), and no further attempt is made: `fails.length + 1` in all. -/
-theorem C10_gs3_query_malformed_not_retried (cfg : Config) (st : State) (h : wf cfg st = true) (port retries : Nat)
-    (arrival : List Bytes) (harr : arrival.Perm (dataPackets cfg st)) (fails : List Attempt)
-    (hk : fails.length ≤ retries) (hw : ∀ a ∈ fails, a.wf (dataPackets cfg st) = true) (stage : Stage)
-    (got : List Bytes) (hgot : gotAt (dataPackets cfg st) stage false got = true) (m : Bytes)
+theorem C10_gs3_query_malformed_not_retried (cfg : ConfigX) (st : State) (h : wfX cfg st = true) (port retries : Nat)
+    (arrival : List Bytes) (harr : arrival.Perm (dataPacketsX cfg st)) (fails : List Attempt)
+    (hk : fails.length ≤ retries) (hw : ∀ a ∈ fails, a.wf (dataPacketsX cfg st) = true) (stage : Stage)
+    (got : List Bytes) (hgot : gotAt (dataPacketsX cfg st) stage false got = true) (m : Bytes)
     (hm : malformedAt stage m = true) (restQ : List Delivery) (restF : List Bool) :
     let plan : Plan := ⟨fails, .malformed stage got m⟩
     let out := Gs3.query port retries
-        (Net.init [.opened (faultyScript cfg plan arrival ++ restQ)] (faultyFaults plan ++ restF))
+        (Net.init [.opened (faultyScriptX cfg plan arrival ++ restQ)] (faultyFaults plan ++ restF))
     out.1 = .err (malformedError m)
     ∧ (malformedError m).isTimeout = false
-    ∧ Gd.sentOf out.2.log = fails.flatMap (Attempt.sends cfg) ++ (Ending.malformed stage got m).sends cfg
+    ∧ Gd.sentOf out.2.log = fails.flatMap (Attempt.sendsX cfg) ++ (Ending.malformed stage got m).sendsX cfg
     ∧ attemptsOf (Gd.sentOf out.2.log) = fails.length + 1 := by
   intro plan out
   obtain ⟨h1, h2⟩ := C10_gs3_query_faulty cfg st h port retries arrival harr plan
@@ -128,68 +131,97 @@ theorem C10_gs3_query_malformed_not_retried (cfg : Config) (st : State) (h : wf 
     restQ restF
   refine ⟨h1, malformedError_not_timeout m, h2, ?_⟩
   show attemptsOf (Gd.sentOf out.2.log) = _
-  rw [show Gd.sentOf out.2.log = _ from h2, attemptsOf_plan]
+  rw [show Gd.sentOf out.2.log = _ from h2, attemptsOf_planX]
   rfl
 
-/-! ### non-vacuity: the server of `Props/C04_gs3.lean` (two data packets, challenge -7), retries = 2 -/
+/-- REPLIES WITHOUT EXTRA SECTIONS are the case `cfg.toX` of the statements above: same domain, same data packets, same
+scripts, same sends, same prescribed packets. -/
+theorem C10_gs3_faults_conservative (cfg : Config) (st : State) (plan : Plan) (arrival : List Bytes) :
+    wfX cfg.toX st = wf cfg st ∧ dataPacketsX cfg.toX st = dataPackets cfg st
+    ∧ faultyScriptX cfg.toX plan arrival = faultyScript cfg plan arrival
+    ∧ faultySendsX cfg.toX plan = faultySends cfg plan
+    ∧ faultyPacketsX cfg.toX st plan = faultyPackets cfg st plan := by
+  obtain ⟨e1, e2, e3, e4⟩ := faulty_toX cfg st plan arrival
+  exact ⟨wfX_toX cfg st, e4, e1, e2, e3⟩
+
+/-- … so the general statement as it stood for `Config` / `wf` (no extra sections) is an instance. -/
+theorem C10_gs3_query_faulty_no_extra (cfg : Config) (st : State) (h : wf cfg st = true) (port retries : Nat)
+    (arrival : List Bytes) (harr : arrival.Perm (dataPackets cfg st)) (plan : Plan)
+    (hplan : wfPlan retries (dataPackets cfg st) plan = true) (restQ : List Delivery) (restF : List Bool) :
+    (Gs3.query port retries
+        (Net.init [.opened (faultyScript cfg plan arrival ++ restQ)] (faultyFaults plan ++ restF))).1
+      = faultyExpected st plan
+    ∧ Gd.sentOf (Gs3.query port retries
+        (Net.init [.opened (faultyScript cfg plan arrival ++ restQ)] (faultyFaults plan ++ restF))).2.log
+      = faultySends cfg plan := by
+  obtain ⟨e0, e4, e1, e2, _⟩ := C10_gs3_faults_conservative cfg st plan arrival
+  have key := C10_gs3_query_faulty cfg.toX st (by rw [e0]; exact h) port retries arrival (by rw [e4]; exact harr) plan
+    (by rw [e4]; exact hplan) restQ restF
+  rw [e1, e2] at key
+  exact key
+
+example : wf C04_gs3_exampleConfig C04_gs3_exampleState = true := C04_gs3_example_wf
+
+/-! ### non-vacuity: the server of `Props/C04_gs3.lean` that sends five extra field sections (`C04_gs3_exampleConfigX`: two data
+packets, challenge -7), retries = 2 -/
 
 -- (a) the challenge reply lost once, then the data packets lost once (after a valid handshake): 6 deliveries
 -- (silence; handshake reply, silence; handshake reply, 2 data packets), 5 sends; the result is the state, 3 attempts
 example (port : Nat) :
-    (faultyScript C04_gs3_exampleConfig ⟨[⟨.handshake, false, []⟩, ⟨.data, false, []⟩], .valid⟩
-      (dataPackets C04_gs3_exampleConfig C04_gs3_exampleState)).length = 6
+    (faultyScriptX C04_gs3_exampleConfigX ⟨[⟨.handshake, false, []⟩, ⟨.data, false, []⟩], .valid⟩
+      (dataPacketsX C04_gs3_exampleConfigX C04_gs3_exampleState)).length = 6
     ∧ faultyFaults ⟨[⟨.handshake, false, []⟩, ⟨.data, false, []⟩], .valid⟩ = [false, false, false, false, false]
-    ∧ (Gs3.query port 2 (Net.init [.opened (faultyScript C04_gs3_exampleConfig
-          ⟨[⟨.handshake, false, []⟩, ⟨.data, false, []⟩], .valid⟩ (dataPackets C04_gs3_exampleConfig C04_gs3_exampleState) ++ [])]
+    ∧ (Gs3.query port 2 (Net.init [.opened (faultyScriptX C04_gs3_exampleConfigX
+          ⟨[⟨.handshake, false, []⟩, ⟨.data, false, []⟩], .valid⟩ (dataPacketsX C04_gs3_exampleConfigX C04_gs3_exampleState) ++ [])]
         (faultyFaults ⟨[⟨.handshake, false, []⟩, ⟨.data, false, []⟩], .valid⟩ ++ []))).1 = .ok (expected C04_gs3_exampleState)
-    ∧ attemptsOf (Gd.sentOf (Gs3.query port 2 (Net.init [.opened (faultyScript C04_gs3_exampleConfig
-          ⟨[⟨.handshake, false, []⟩, ⟨.data, false, []⟩], .valid⟩ (dataPackets C04_gs3_exampleConfig C04_gs3_exampleState) ++ [])]
+    ∧ attemptsOf (Gd.sentOf (Gs3.query port 2 (Net.init [.opened (faultyScriptX C04_gs3_exampleConfigX
+          ⟨[⟨.handshake, false, []⟩, ⟨.data, false, []⟩], .valid⟩ (dataPacketsX C04_gs3_exampleConfigX C04_gs3_exampleState) ++ [])]
         (faultyFaults ⟨[⟨.handshake, false, []⟩, ⟨.data, false, []⟩], .valid⟩ ++ []))).2.log) = 3 := by
-  have h := C10_gs3_query_recovers C04_gs3_exampleConfig C04_gs3_exampleState C04_gs3_example_wf port 2 _
+  have h := C10_gs3_query_recovers C04_gs3_exampleConfigX C04_gs3_exampleState C04_gs3_exampleX_wf port 2 _
     (List.Perm.refl _) [⟨.handshake, false, []⟩, ⟨.data, false, []⟩] (by decide) (by decide) [] []
   exact ⟨by decide, by decide, h.1, h.2.2⟩
 
 -- (b) three timeouts, the last one a failed send of the data request: PacketSend after 3 attempts
 example (port : Nat) (restQ : List Delivery) :
-    (Gs3.query port 2 (Net.init [.opened (faultyScript C04_gs3_exampleConfig
+    (Gs3.query port 2 (Net.init [.opened (faultyScriptX C04_gs3_exampleConfigX
           ⟨[⟨.handshake, true, []⟩, ⟨.data, false, []⟩, ⟨.data, true, []⟩], .gaveUp⟩
-          (dataPackets C04_gs3_exampleConfig C04_gs3_exampleState) ++ restQ)]
+          (dataPacketsX C04_gs3_exampleConfigX C04_gs3_exampleState) ++ restQ)]
         (faultyFaults ⟨[⟨.handshake, true, []⟩, ⟨.data, false, []⟩, ⟨.data, true, []⟩], .gaveUp⟩ ++ []))).1 = .err .packetSend :=
-  (C10_gs3_query_exhausted C04_gs3_exampleConfig C04_gs3_exampleState C04_gs3_example_wf port 2 _
+  (C10_gs3_query_exhausted C04_gs3_exampleConfigX C04_gs3_exampleState C04_gs3_exampleX_wf port 2 _
     (List.Perm.refl _) [⟨.handshake, true, []⟩, ⟨.data, false, []⟩, ⟨.data, true, []⟩] rfl (by decide) restQ []).1
 
 -- (c) retries = 7: after a valid handshake the datagram FF FF arrives instead of a data packet: PacketBad at once
 example (port : Nat) :
-    (Gs3.query port 7 (Net.init [.opened (faultyScript C04_gs3_exampleConfig ⟨[], .malformed .data [] [0xFF, 0xFF]⟩
-          (dataPackets C04_gs3_exampleConfig C04_gs3_exampleState) ++ [])]
+    (Gs3.query port 7 (Net.init [.opened (faultyScriptX C04_gs3_exampleConfigX ⟨[], .malformed .data [] [0xFF, 0xFF]⟩
+          (dataPacketsX C04_gs3_exampleConfigX C04_gs3_exampleState) ++ [])]
         (faultyFaults ⟨[], .malformed .data [] [0xFF, 0xFF]⟩ ++ []))).1 = .err .packetBad :=
-  (C10_gs3_query_malformed_not_retried C04_gs3_exampleConfig C04_gs3_exampleState C04_gs3_example_wf port 7 _
+  (C10_gs3_query_malformed_not_retried C04_gs3_exampleConfigX C04_gs3_exampleState C04_gs3_exampleX_wf port 7 _
     (List.Perm.refl _) [] (by decide) (by decide) .data [] (by decide) [0xFF, 0xFF] (by decide) [] []).1
 
 /-! ### a reply that stops half way: the server's reply travels as two data packets -/
 
 /-- the second of the two data packets -/
-def C10_gs3_demoGot : List Bytes := (dataPackets C04_gs3_exampleConfig C04_gs3_exampleState).drop 1
+def C10_gs3_demoGot : List Bytes := (dataPacketsX C04_gs3_exampleConfigX C04_gs3_exampleState).drop 1
 
 -- (a) the first attempt receives the handshake reply and the SECOND data packet, then nothing; the second attempt is
 -- answered: 7 deliveries, the result is the state, 2 attempts; (c) retries = 7, after the handshake reply and the second
 -- data packet the datagram FF FF arrives: PacketBad at once, one attempt
 example (port : Nat) (restQ : List Delivery) :
-    (dataPackets C04_gs3_exampleConfig C04_gs3_exampleState).length = 2
-    ∧ (faultyScript C04_gs3_exampleConfig ⟨[⟨.data, false, C10_gs3_demoGot⟩], .valid⟩
-      (dataPackets C04_gs3_exampleConfig C04_gs3_exampleState)).length = 6
-    ∧ (Gs3.query port 2 (Net.init [.opened (faultyScript C04_gs3_exampleConfig
-          ⟨[⟨.data, false, C10_gs3_demoGot⟩], .valid⟩ (dataPackets C04_gs3_exampleConfig C04_gs3_exampleState) ++ restQ)]
+    (dataPacketsX C04_gs3_exampleConfigX C04_gs3_exampleState).length = 2
+    ∧ (faultyScriptX C04_gs3_exampleConfigX ⟨[⟨.data, false, C10_gs3_demoGot⟩], .valid⟩
+      (dataPacketsX C04_gs3_exampleConfigX C04_gs3_exampleState)).length = 6
+    ∧ (Gs3.query port 2 (Net.init [.opened (faultyScriptX C04_gs3_exampleConfigX
+          ⟨[⟨.data, false, C10_gs3_demoGot⟩], .valid⟩ (dataPacketsX C04_gs3_exampleConfigX C04_gs3_exampleState) ++ restQ)]
         (faultyFaults ⟨[⟨.data, false, C10_gs3_demoGot⟩], .valid⟩ ++ []))).1 = .ok (expected C04_gs3_exampleState)
-    ∧ attemptsOf (Gd.sentOf (Gs3.query port 2 (Net.init [.opened (faultyScript C04_gs3_exampleConfig
-          ⟨[⟨.data, false, C10_gs3_demoGot⟩], .valid⟩ (dataPackets C04_gs3_exampleConfig C04_gs3_exampleState) ++ restQ)]
+    ∧ attemptsOf (Gd.sentOf (Gs3.query port 2 (Net.init [.opened (faultyScriptX C04_gs3_exampleConfigX
+          ⟨[⟨.data, false, C10_gs3_demoGot⟩], .valid⟩ (dataPacketsX C04_gs3_exampleConfigX C04_gs3_exampleState) ++ restQ)]
         (faultyFaults ⟨[⟨.data, false, C10_gs3_demoGot⟩], .valid⟩ ++ []))).2.log) = 2
-    ∧ (Gs3.query port 7 (Net.init [.opened (faultyScript C04_gs3_exampleConfig
+    ∧ (Gs3.query port 7 (Net.init [.opened (faultyScriptX C04_gs3_exampleConfigX
           ⟨[], .malformed .data C10_gs3_demoGot [0xFF, 0xFF]⟩
-          (dataPackets C04_gs3_exampleConfig C04_gs3_exampleState) ++ restQ)]
+          (dataPacketsX C04_gs3_exampleConfigX C04_gs3_exampleState) ++ restQ)]
         (faultyFaults ⟨[], .malformed .data C10_gs3_demoGot [0xFF, 0xFF]⟩ ++ []))).1 = .err .packetBad := by
-  have h := C10_gs3_query_recovers C04_gs3_exampleConfig C04_gs3_exampleState C04_gs3_example_wf port 2 _
+  have h := C10_gs3_query_recovers C04_gs3_exampleConfigX C04_gs3_exampleState C04_gs3_exampleX_wf port 2 _
     (List.Perm.refl _) [⟨.data, false, C10_gs3_demoGot⟩] (by decide) (by decide) restQ []
-  have hm := C10_gs3_query_malformed_not_retried C04_gs3_exampleConfig C04_gs3_exampleState C04_gs3_example_wf port 7 _
+  have hm := C10_gs3_query_malformed_not_retried C04_gs3_exampleConfigX C04_gs3_exampleState C04_gs3_exampleX_wf port 7 _
     (List.Perm.refl _) [] (by decide) (by decide) .data C10_gs3_demoGot (by decide) [0xFF, 0xFF] (by decide) restQ []
   exact ⟨by decide, by decide, h.1, h.2.2, hm.1⟩
